@@ -8,7 +8,7 @@ From Flussab Require Import Base.
 
 (* ---- the source: a byte string plus a schedule of read() results ---- *)
 Inductive revent :=
-| Deliver (n : N)   (* Ok(k), k = min(n, slice length, bytes left); k = 0 is end of input *)
+| Deliver (n : N)   (* n bytes are ready: Ok(k), k = min(n, slice length, bytes left); k = 0 is end of input *)
 | Interrupt         (* Err(ErrorKind::Interrupted) *)
 | FailE (e : N)     (* Err(other), e identifies the error *)
 | Eof               (* Ok(0) although bytes may be left: they are never delivered *)
@@ -31,8 +31,10 @@ Definition src_read_inner (d : bytes) (evs : list revent) (room : N) : read_resu
       let k := N.min room (nlen d) in
       (ROk (nfirstn k d) k, {| prebuf := []; data := nskipn k d; events := [] |})
   | Deliver n :: ev =>
+      (* n bytes are ready; what does not fit the slice stays ready for the next call *)
       let k := N.min (N.min n room) (nlen d) in
-      (ROk (nfirstn k d) k, {| prebuf := []; data := nskipn k d; events := ev |})
+      let ev' := if (0 <? k) && (k <? n) then Deliver (n - k) :: ev else ev in
+      (ROk (nfirstn k d) k, {| prebuf := []; data := nskipn k d; events := ev' |})
   | Eof :: ev => (ROk [] 0, {| prebuf := []; data := d; events := ev |})
   | FailE e :: ev => (RErr e, {| prebuf := []; data := d; events := ev |})
   | Lie n :: ev =>
